@@ -89,7 +89,15 @@ func (e *Env) wf(st *State, v Term, typ types.Type, heapName string) {
 	// reference to an object that existed when that version of the heap came into being
 	_, valSort := hv.Sort.ArrayParts()
 	var body func(x string) string
+	if lo, hi, ok := intRange(typ); ok {
+		// integer cells hold values of their Go type
+		body = func(x string) string { return fmt.Sprintf("(and (<= %s %s) (<= %s %s))", IntLitStr(lo).S, x, x, IntLitStr(hi).S) }
+	}
 	switch typ.Underlying().(type) {
+	case *types.Basic:
+		if body == nil {
+			return
+		}
 	case *types.Pointer, *types.Map, *types.Interface, *types.Signature, *types.Chan:
 		body = func(x string) string { return fmt.Sprintf("(and (>= %s 0) (<= (root %s) %s))", x, x, top.S) }
 	case *types.Slice:
@@ -100,8 +108,9 @@ func (e *Env) wf(st *State, v Term, typ types.Type, heapName string) {
 		return
 	}
 	if valSort.IsArray() {
+		ks, _ := valSort.ArrayParts()
 		x := fmt.Sprintf("(select (select %s a) i)", hv.S)
-		e.emit(Term{fmt.Sprintf("(forall ((a Int) (i Int)) (! %s :pattern (%s)))", body(x), x), SBool})
+		e.emit(Term{fmt.Sprintf("(forall ((a Int) (i %s)) (! %s :pattern (%s)))", ks, body(x), x), SBool})
 	} else {
 		x := fmt.Sprintf("(select %s r)", hv.S)
 		e.emit(Term{fmt.Sprintf("(forall ((r Int)) (! %s :pattern (%s)))", body(x), x), SBool})
@@ -453,6 +462,7 @@ func (e *Env) index(x SIndex) TV {
 		// Go semantics: a missing key (or a nil map) yields the zero value
 		val, dom := e.w.MapHeaps(u)
 		in := And(Ne(b.T, IntLit(0)), Select(Select(e.heap(e.st, dom), b.T), i.T))
+		e.wf(e.st, Select(Select(e.heap(e.st, val), b.T), i.T), u.Elem(), val)
 		return TV{Ite(in, Select(Select(e.heap(e.st, val), b.T), i.T), e.w.Zero(u.Elem())), u.Elem()}
 	case *types.Basic:
 		if u.Info()&types.IsString != 0 {
